@@ -1,6 +1,6 @@
 //go:build verif
 
-package verifdrv
+package c12raw
 
 // Shared pieces of the C12 differential drivers (lib/store/redis, lib/store/kv): argument access,
 // canonical encoding of replies, the raw go-redis side of every wrapper method, keyspace dumps.
